@@ -37,7 +37,9 @@ OPTXT = {'en': {'+': 'plus', '-': 'minus', '\\cdot': 'times', '\\times': 'times'
 REPL = {'en': ['U-U-U', 'V-V-V', 'W-W-W', 'X-X-X', 'Y-Y-Y', 'Z-Z-Z'],
         'de': ['U-U-U', 'V-V-V', 'W-W-W', 'X-X-X', 'Y-Y-Y', 'Z-Z-Z'],
         'ru': ['Ц-Ц-Ц', 'Ч-Ч-Ч', 'Ш-Ш-Ш', 'Ы-Ы-Ы', 'Э-Э-Э', 'Ю-Ю-Ю']}
-ELEM = ['a', 'x_1', '\\alpha', '\\frac{a}{b}', 'f(x)', '\\zzm{a}{b}', '2', '{a}', 'x^{2}', '\\sqrt{y}']
+ELEM = ['a', 'x_1', '\\alpha', '\\frac{a}{b}', 'f(x)', '\\zzm{a}{b}', '2', '{a}', 'x^{2}', '\\sqrt{y}',
+        # user macros whose body is one capital letter (also letters of the error mark; seeded change C11-G)
+        '\\zzR', '\\zzL', 'X', 'E']
 LEAD = ['', '', '', '\\,', '\\quad ', '~', '\\ ', '\\qquad\\qquad ', '\\quad\\; ']
 TRAIL = ['', '', ' \\label{kk}', ' \\nonumber', '\\,', ' \\quad ', ' \\label{kk}\\,', ' %c\n']
 ENVS = ['equation', 'align', 'align*', 'eqnarray', 'gather', '[', '$$', 'displaymath', 'multiline', 'flalign*',
@@ -199,7 +201,7 @@ def check(doc):
     lang, seqs, eqs = doc
     r = R()
     items = []
-    r.src += '\\newcommand{\\zzone}[1]{#1}\n' + r.word('W') + '\n'
+    r.src += '\\newcommand{\\zzone}[1]{#1}\n\\newcommand{\\zzR}{\\mathbb{R}}\\newcommand{\\zzL}{L}\n' + r.word('W') + '\n'
     first = r.src.strip().split('\n')[-1]
     marks = [first]
     for e in eqs:
